@@ -57,12 +57,19 @@ inductive Res where
   | num (n : Nat)
   | unit
   | threw                             -- the exception of the item's constructor left `push`
+  | full                              -- the backing store refused the element (`single_item_queue`: std::runtime_error)
   | bad                               -- outside the precondition (queue already destroyed / no such k)
   deriving Repr, DecidableEq
 
 /-! ## `queue<T>` -/
 
 structure State where
+  -- configuration (template arguments `Queue` / `CoroQueue`): `none` = `std_queue` (unbounded), `some n` = a backing store
+  -- that refuses the (n+1)-th element - `primitives::single_item_queue` is `some 1`: `emplace` throws
+  -- std::runtime_error("Single item queue is full") *before* touching anything (queue.h:77-80).  The `Lock` argument
+  -- (`std::mutex`, `primitives::no_lock`, the harness's parking lock) has no field: a lock region is a step.
+  cap : Option Nat := none      -- capacity of `Queue<T>` (items)
+  wcap : Option Nat := none     -- capacity of `CoroQueue<promise<T>>` (parked pops)
   items : List Item := []       -- `_queue`, oldest first
   waiters : List Pop := []      -- `_awaiters` (parked promises), oldest first
   inflight : List Ev := []      -- promise moved out under the lock, resolution not yet performed
@@ -78,6 +85,19 @@ structure State where
   deriving Repr
 
 def init : State := {}
+
+/-- the empty queue of a given configuration -/
+def initCfg (cap wcap : Option Nat) : State := { cap := cap, wcap := wcap }
+
+def itemsFull (s : State) : Bool :=
+  match s.cap with
+  | some n => decide (n ≤ s.items.length)
+  | none => false
+
+def waitersFull (s : State) : Bool :=
+  match s.wcap with
+  | some n => decide (n ≤ s.waiters.length)
+  | none => false
 
 /-- `queue::push` lock region (queue.h:148-160) -/
 def stepPush (s : State) (p v : Nat) : State × Res :=
@@ -117,6 +137,21 @@ def stepPop (s : State) (c : Nat) : State × Res :=
                 completed := s.completed ++ [⟨⟨s.nextPop, c⟩, Out.val x⟩] },
        Res.pop s.nextPop (some (Out.val x)))
 
+/-! With a bounded backing store the `emplace` of the lock region throws when the store is full: `_queue.emplace` in
+`push` (nobody waiting, queue.h:157), `_awaiters.emplace` in `pop` (queue empty, queue.h:201).  The check is the first
+thing `emplace` does, the `unique_lock` unlocks during unwinding, the promise of the refused `pop` dies with the
+future that was being constructed: nothing changes, the caller sees the exception (`Res.full`), no push/pop serial is used. -/
+
+def stepPushC (s : State) (p v : Nat) : State × Res :=
+  if s.waiters.isEmpty && itemsFull s then (s, Res.full) else stepPush s p v
+
+/-- the full-check of `single_item_queue::emplace` comes before the item is constructed -/
+def stepPushThrowC (s : State) : State × Res :=
+  if s.waiters.isEmpty && itemsFull s then (s, Res.full) else stepPushThrow s
+
+def stepPopC (s : State) (c : Nat) : State × Res :=
+  if s.items.isEmpty && waitersFull s then (s, Res.full) else stepPop s c
+
 /-- `queue::unblock_pop` lock region (queue.h:223-230) -/
 def stepUpop (s : State) (c : Nat) : State × Res :=
   match s.waiters with
@@ -139,9 +174,9 @@ def stepDeliver (s : State) (k : Nat) : State × Res :=
 
 def stepLive (s : State) (op : Op) : State × Res :=
   match op with
-  | Op.push p v => stepPush s p v
-  | Op.pushthrow => stepPushThrow s
-  | Op.pop c => stepPop s c
+  | Op.push p v => stepPushC s p v
+  | Op.pushthrow => stepPushThrowC s
+  | Op.pop c => stepPopC s c
   | Op.upop c => stepUpop s c
   | Op.size => (s, Res.num s.items.length)
   | Op.empty => (s, Res.flag s.items.isEmpty)
@@ -163,6 +198,7 @@ namespace Cocls.VQ
 open Cocls.Q
 
 structure State where
+  wcap : Option Nat := none     -- capacity of `CoroQueue<promise<void>>` (`single_item_queue` does not exist for `void` items)
   sz : Nat := 0                 -- `std_queue<void>::_sz`
   waiters : List Pop := []
   inflight : List Ev := []
@@ -176,6 +212,13 @@ structure State where
   deriving Repr
 
 def init : State := {}
+
+def initCfg (wcap : Option Nat) : State := { wcap := wcap }
+
+def waitersFull (s : State) : Bool :=
+  match s.wcap with
+  | some n => decide (n ≤ s.waiters.length)
+  | none => false
 
 def stepPush (s : State) : State × Res :=
   match s.waiters with
@@ -202,6 +245,9 @@ def stepPop (s : State) (c : Nat) : State × Res :=
               served := s.served ++ [⟨⟨s.nextPop, c⟩, Out.ok⟩],
               completed := s.completed ++ [⟨⟨s.nextPop, c⟩, Out.ok⟩] }, Res.pop s.nextPop (some Out.ok))
 
+def stepPopC (s : State) (c : Nat) : State × Res :=
+  if (s.sz == 0) && waitersFull s then (s, Res.full) else stepPop s c
+
 def stepUpop (s : State) (c : Nat) : State × Res :=
   match s.waiters with
   | [] => (s, Res.flag false)
@@ -223,7 +269,7 @@ def stepLive (s : State) (op : Op) : State × Res :=
   match op with
   | Op.push _ _ => stepPush s
   | Op.pushthrow => stepPushThrow s
-  | Op.pop c => stepPop s c
+  | Op.pop c => stepPopC s c
   | Op.upop c => stepUpop s c
   | Op.size => (s, Res.num s.sz)
   | Op.empty => (s, Res.flag (s.sz == 0))
